@@ -7,7 +7,7 @@ let ints l = String.concat " " (List.map (fun n -> string_of_int (int_of_nat n))
 let dump_labels () =
   Printf.printf "dead %s\n" (ints dead_labels);
   List.iter (fun id ->
-    if int_of_nat id < 100 then begin
+    if not (orig_id id) && int_of_nat id < 400 then begin
       Printf.printf "L %d all %s\n" (int_of_nat id) (ints (op_labels_of id));
       for k = 0 to 17 do
         let l = labels_at id (nat_of_int k) in
@@ -17,10 +17,11 @@ let dump_labels () =
 
 let handle (lines : string list) : unit =
   if List.mem "labels-table" lines then dump_labels () else
-  let id = ref (-1) and ks = ref None in
+  let id = ref (-1) and ks = ref None and mode_retry = ref false in
   List.iter (fun l ->
     match words l with
     | "inst" :: _ :: i :: _ -> id := int_of_string i
+    | "mode" :: "retry" :: _ -> mode_retry := true
     | "faults" :: r -> ks := Some (List.filter (fun k -> k >= 1) (List.map int_of_string r))
     | _ -> ()) lines;
   match !ks with
@@ -32,19 +33,25 @@ let handle (lines : string list) : unit =
        Printf.printf "pre live=%d\n" (List.length o.o_base);
        if o.o_bad then print_endline "op CRASH"
        else begin
+         let idn = nat_of_int !id in
          let isok = (match o.o_rc with Ok -> true | Fail -> false) in
          Printf.printf "op rc=%s att=%d live=%d\n" (if isok then "ok" else "fail")
            (int_of_nat o.o_att) (List.length o.o_live);
-         let idn = nat_of_int !id in
-         let retried = (not isok) && retry_of idn in
+         if not isok then print_endline (if o.o_kept then "unchanged yes" else "unchanged NO");
+         (* future B (mode retry): the failed operation is retried; future A: destroy follows directly *)
+         let retried = (not isok) && !mode_retry && retry_of idn in
          if retried then Printf.printf "retry rc=%s\n" (if o.o_retry_ok then "ok" else "fail");
-         let isok = isok || (retried && o.o_retry_ok) in
-         if o.o_dbad then print_endline "destroy CRASH"
-         else if isok || dfail_of idn then begin
+         let okk = isok || (retried && o.o_retry_ok) in
+         if okk && cont_of idn then
+           Printf.printf "cont rc=%s live=%d\n" (if o.o_cont_ok then "ok" else "fail") (List.length o.o_clive);
+         let dbad, dlive, freed =
+           if retried then o.o_rdbad, o.o_rdlive, o.o_rfreed else o.o_dbad, o.o_dlive, o.o_freed in
+         if dbad then print_endline "destroy CRASH"
+         else if okk || dfail_of idn then begin
            if int_of_nat (nvals_of idn) > 0 then
-             Printf.printf "destroy live=%d freed=%d\n" (List.length o.o_dlive) (int_of_nat o.o_freed)
-           else Printf.printf "destroy live=%d\n" (List.length o.o_dlive) end
-         else Printf.printf "destroy skipped live=%d\n" (List.length o.o_dlive)
+             Printf.printf "destroy live=%d freed=%d\n" (List.length dlive) (int_of_nat freed)
+           else Printf.printf "destroy live=%d\n" (List.length dlive) end
+         else Printf.printf "destroy skipped live=%d\n" (List.length dlive)
        end)
 
 let () = run_cases handle
